@@ -231,7 +231,7 @@ theorem disjuncts_horn (b : Term) (h : hornBody b = true) : SLD.disjuncts b = [b
       simp [SLD.conjuncts, SLD.wrapVar, SLD.mk2]
     simp only [SLD.mk2] at this
     simp only [hornBody, this, List.all_cons, List.all_nil, Bool.and_true] at h
-    rcases hornGoal_shape h with ⟨f, hf', _⟩ | ⟨a, b, hab⟩ | ⟨f, as, hfa, hu⟩
+    rcases hornGoal_shape h with ⟨f, hf', _⟩ | ⟨a, b, hab⟩ | ⟨f, as, hfa, hu, _⟩
     · cases hf'
     · simp at hab
     · simp only [Term.app.injEq] at hfa
@@ -242,7 +242,7 @@ theorem disjuncts_horn (b : Term) (h : hornBody b = true) : SLD.disjuncts b = [b
     have : SLD.conjuncts (.app ";" (.cons a (.cons b' .nil))) = [.app ";" (.cons a (.cons b' .nil))] := by
       simp [SLD.conjuncts, SLD.wrapVar]
     simp only [hornBody, this, List.all_cons, List.all_nil, Bool.and_true] at h
-    rcases hornGoal_shape h with ⟨f, hf', _⟩ | ⟨a, b, hab⟩ | ⟨f, as, hfa, hu⟩
+    rcases hornGoal_shape h with ⟨f, hf', _⟩ | ⟨a, b, hab⟩ | ⟨f, as, hfa, hu, _⟩
     · cases hf'
     · simp at hab
     · simp only [Term.app.injEq] at hfa
